@@ -33,14 +33,14 @@ EPS = 1.0
 
 def floors(tier):
     q = tier == "quick"
-    return {"c12.served": 3000 if q else 300000, "c12.justified": 3000 if q else 300000, "c12.no_duplicate": 2000 if q else 200000}
+    return {"c12.served": 20000 if q else 2000000, "c12.justified": 20000 if q else 2000000, "c12.no_duplicate": 20000 if q else 2000000}
 
 
 def plan(tier, seed):
     if tier == "quick":
-        n, per = 16, 80
+        n, per = 16, 800
     else:
-        n, per = 64, 2400
+        n, per = 64, 24000
     return [{"seed": seed, "shard": i, "per": per, "tier": tier} for i in range(n)]
 
 
